@@ -78,6 +78,69 @@ impl<'a> World<'a> {
         }
     }
 
+    /// Many handle generations in one go: every new handle must differ from everything that is open.
+    pub fn op_churn(&mut self, vs: u8, n: u32) {
+        let opk = "handle_churn";
+        let (h, _) = match self.vslots.get(vs as usize).and_then(|s| s.cur.clone()) {
+            Some(x) => x,
+            None => return,
+        };
+        if self.open_dir_count() >= self.limits.0 {
+            return;
+        }
+        let mut open: std::collections::BTreeSet<u64> = std::collections::BTreeSet::new();
+        for s in &self.vslots {
+            if let Some((x, _)) = &s.cur {
+                open.insert(handle_num(x));
+            }
+        }
+        for s in &self.dslots {
+            if let Some((x, _)) = &s.cur {
+                open.insert(handle_num(x));
+            }
+        }
+        for s in &self.fslots {
+            if let Some((x, _)) = &s.cur {
+                open.insert(handle_num(x));
+            }
+        }
+        let r = self.call(|fs| -> Result<(), (u32, String, bool)> {
+            for i in 0..n {
+                let d = fs.open_root_dir(h, 0).map_err(|e| (i, format!("open_root_dir: {}", crate::fs::err_name(&e)), false))?;
+                if open.contains(&handle_num(&d)) {
+                    let _ = fs.close_dir(d, 0);
+                    return Err((i, format!("new handle {:#x} equals an open handle", handle_num(&d)), true));
+                }
+                fs.close_dir(d, 0).map_err(|e| (i, format!("close_dir: {}", crate::fs::err_name(&e)), false))?;
+            }
+            Ok(())
+        });
+        match r {
+            Ok(Ok(())) => {
+                self.ev("churn:ok");
+                self.probes.add("handle_generations_churned", n as u64);
+                if n >= 65536 {
+                    self.probes.hit("churn_beyond_65536_generations");
+                }
+            }
+            Ok(Err((i, what, clash))) => {
+                self.ev("churn:err");
+                if clash {
+                    self.violate("C08", "handle-not-distinct", "churn", format!("after {} generations: {}", i, what));
+                } else {
+                    self.violate("C08", "result", "handle_churn:got=Err", format!("generation {}: {}", i, what));
+                }
+                self.abort("churn");
+            }
+            Err(p) => {
+                self.violate("C08", "panic", opk, p.msg);
+                self.abort("panic");
+            }
+        }
+        let a = Allow { read_only: true, ..Default::default() };
+        self.finish(opk, &a, None);
+    }
+
     pub fn op_close_volume(&mut self, vs: u8, fl: u8) {
         let opk = "close_volume";
         let (h, vh) = match self.vslots.get(vs as usize).and_then(|s| s.cur.clone()) {
